@@ -434,7 +434,11 @@ pub fn main_pairs(a: Args, which: &str) -> i32 {
     let mut nfail = 0u64;
     let mut distinct = HashSet::new();
     for p in &pairs {
-        out.line("cases.txt", &format!("{} {} {} {}", p.id, p.bs, hex(&p.basis), hex(&p.src)));
+        let case_line = format!("{} {} {} {}", p.id, p.bs, hex(&p.basis), hex(&p.src));
+        if p.basis.len() + p.src.len() < 300_000 {
+            out.inflight(&case_line);
+        }
+        out.line("cases.txt", &case_line);
         let e = run_pair(p, a.seed);
         out.line("impl.txt", &e.line);
         out.count("pairs");
